@@ -5,6 +5,7 @@ package main
 import (
 	"fmt"
 	"go/types"
+	"path/filepath"
 	"strings"
 
 	"golang.org/x/tools/go/ssa"
@@ -99,6 +100,10 @@ func (x *Explorer) doCallVals(st *State, f *Frame, ins ssa.Instruction, c *ssa.C
 		case VFunc:
 			target = fv.Fn
 			bindings = fv.Bind
+			if target == nil && fv.ID != nil && fv.ID.IsLit() && fv.ID.Int.Int64() == noopFuncID {
+				x.bind(st, f, res, x.freshResults(st, sig, "noop"), isDefer)
+				return
+			}
 			if target == nil {
 				// opaque function value: contract on a parameter or a struct field
 				if sc := x.funcValueContract(f, c.Value); sc != nil {
@@ -265,8 +270,9 @@ func (x *Explorer) atReturn(st *State, f *Frame, r *ssa.Return, vals []Val) {
 		g := env.evalBool(cl.Expr)
 		x.emit(st, "post", cl.Label, site, g, cl.Where)
 	}
+	x.frameObligations(st, f, site, env)
 	// reachability of this return (vacuity guard)
-	x.obls = append(x.obls, &Obligation{Func: x.fnKey, Name: "cover[reach]@" + site, Kind: "cover", Label: "reach", Cover: true,
+	x.obls = append(x.obls, &Obligation{Func: x.fnKey, Name: "cover[reach]", Kind: "cover", Label: "reach", Cover: true,
 		Assume: append(append([]*Term{}, st.facts...), st.pc...), Goal: tFalse, Trail: strings.Join(st.trail, ";"), Where: x.eng.posStr(r.Pos())})
 }
 
@@ -277,7 +283,7 @@ func (x *Explorer) applyContract(st *State, f *Frame, con *Contract, allArgs []V
 	if !st.dry && (con.Trusted || !x.eng.hasBody(con)) {
 		x.assumed[con.Key]++
 	}
-	env := &SpecEnv{x: x, st: st, vars: map[string]Val{}, con: con, pkg: con.Pkg}
+	env := &SpecEnv{x: x, st: st, vars: map[string]Val{}, con: con, pkg: con.Pkg, frame: f}
 	names := con.Params
 	a := allArgs
 	if con.RecvType != "" && len(allArgs) == len(con.Params)+1 {
@@ -320,13 +326,28 @@ func (x *Explorer) applyContract(st *State, f *Frame, con *Contract, allArgs []V
 	for i := range vals {
 		hint := fmt.Sprintf("r%d_%s", i, con.FuncName)
 		vals[i] = x.freshResult(st, sig.Results().At(i).Type(), hint)
+		if i < len(con.Results) && con.Fresh[con.Results[i]] {
+			if pt, ok := sig.Results().At(i).Type().Underlying().(*types.Pointer); ok {
+				// a newly allocated object (or nil): distinct from everything that exists
+				isNil := st.freshSym(hint+"_nil", SBool)
+				vals[i] = VPtr{Ref: Ite(isNil, IntLit(0), st.newRef()), Root: pt.Elem()}
+			}
+		}
 	}
 	env.bindResults(con, sig, vals)
 	for _, cl := range con.Ensures {
+		if mentionsObserver(cl.Expr, con) {
+			continue // speaks about the callee's own call history: only meaningful inside the callee
+		}
 		env.goal = false
 		st.assume(env.evalBool(cl.Expr))
 	}
 	x.observe(st, f, con.FuncName, site, allArgs, vals)
+	if !st.dry && !st.dead {
+		// vacuity guard: the assumed clauses must leave this path (or another one) alive
+		x.obls = append(x.obls, &Obligation{Func: x.fnKey, Name: "cover[after " + site + "]", Kind: "cover", Label: "after " + site, Cover: true,
+			Assume: append(append([]*Term{}, st.facts...), st.pc...), Goal: tFalse, Trail: strings.Join(st.trail, ";"), Where: x.eng.posStr(ins.Pos())})
+	}
 	if durable {
 		x.crashPoint(st, site)
 	}
@@ -394,4 +415,100 @@ func (x *Explorer) crashPoint(st *State, site string) {
 		g := env.evalBool(cl.Expr)
 		x.emit(st, "crash", cl.Label, "after "+site, g, cl.Where)
 	}
+}
+
+func mentionsObserver(e *SExpr, con *Contract) bool {
+	if e == nil || len(con.Observes) == 0 {
+		return false
+	}
+	if e.Kind == "ident" {
+		for _, o := range con.Observes {
+			if o.Name == e.Name {
+				return true
+			}
+		}
+	}
+	for _, a := range e.Args {
+		if mentionsObserver(a, con) {
+			return true
+		}
+	}
+	return false
+}
+
+// frameFormula states, for one heap array and one object reference r, that the object's
+// contents equal the pre-state contents except at the locations listed in mods. Objects
+// allocated during the call (references in [refBase, 10^9)) are not constrained.
+func frameFormula(name string, cur, old *Term, mods []Loc, r *Term) *Term {
+	pre := Or(Lt(r, IntLit(refBase)), Ge(r, IntLit(1000000000)))
+	guard := []*Term{pre}
+	innerNew := Select(cur, r)
+	patched := Select(old, r)
+	for _, m := range mods {
+		if m.Name != name {
+			continue
+		}
+		switch {
+		case len(m.Idx) == 1:
+			guard = append(guard, Neq(r, m.Idx[0]))
+		case len(m.Idx) == 2 && IsArrSort(innerNew.Sort):
+			patched = Ite(Eq(r, m.Idx[0]), Store(patched, m.Idx[1], Select(innerNew, m.Idx[1])), patched)
+		default:
+			guard = append(guard, Neq(r, m.Idx[0])) // deeper location: the whole object is released
+		}
+	}
+	return Implies(And(guard...), Eq(innerNew, patched))
+}
+
+func (x *Explorer) contractMods(st *State, f *Frame) []Loc {
+	con := f.contract
+	if con == nil {
+		return nil
+	}
+	env := x.specEnv(st, f, con)
+	env.vars = map[string]Val{}
+	var mods []Loc
+	env.inOld = true
+	env.withHeap(copyHeap(st.oldHeap), func() {
+		for _, m := range con.Modifies {
+			mods = append(mods, env.locs(m.Expr)...)
+		}
+	})
+	env.inOld = false
+	return mods
+}
+
+// frameObligations: every heap array written on this path may differ from the pre-state only
+// at locations listed in the contract's modifies clauses or in objects allocated by the call.
+func (x *Explorer) frameObligations(st *State, f *Frame, site string, env *SpecEnv) {
+	con := f.contract
+	if con == nil || st.dry {
+		return
+	}
+	mods := x.contractMods(st, f)
+	for _, name := range sortedKeys(st.written) {
+		cur := st.heap[name]
+		if cur == nil || strings.HasPrefix(name, "map:") {
+			continue // Go maps are not framed (engine note)
+		}
+		old := st.oldHeap[name]
+		if old == nil {
+			old = Sym("H0:"+name, cur.Sort)
+		}
+		if cur == old || cur.String() == old.String() {
+			continue
+		}
+		r := st.freshInt("frame_r")
+		st.skolems = append(st.skolems, r)
+		x.emit(st, "frame", name, site, frameFormula(name, cur, old, mods, r), filepath.Base(con.File))
+		st.skolems = st.skolems[:len(st.skolems)-1]
+	}
+}
+
+func copyHeap(h map[string]*Term) map[string]*Term {
+	n := make(map[string]*Term, len(h))
+	for k, v := range h {
+		n[k] = v
+	}
+	return n
 }
